@@ -62,6 +62,7 @@ Inductive outcome :=
 | OContinue
 | ORaise (e : exn)
 | OSuspend (a : await_pt)
+| OCancelled            (* checkpoint_if_cancelled() at the start of the call found the caller's scope cancelled *)
 | OStuck.               (* outside the modelled behaviour: unbound local, checkpoint after an effect, ... *)
 
 (* ---- locals of one activation + the events of the segment that the ghost bookkeeping needs ---- *)
@@ -70,14 +71,17 @@ Record env := mkenv {
   e_fut : option fid;              (* local `fut` *)
   e_fresh : bool;                  (* no effect and no suspension since the call began *)
   e_rel : bool;                    (* event: a nested self.release() returned normally *)
-  e_enq : list (tid * fid)         (* event log: items appended to self._waiters *)
+  e_enq : list (tid * fid);        (* event log: items appended to self._waiters *)
+  e_canc : bool                    (* the caller's cancel scope is effectively cancelled when the call begins *)
 }.
 
-Definition env_entry : env := mkenv None None true false [].
+Definition env_entry : env := mkenv None None true false [] false.
+(* the same call made from an effectively cancelled scope (C08 clause (a)) *)
+Definition env_entry_cancelled : env := mkenv None None true false [] true.
 (* locals persist across an await; the continuation does not start fresh *)
-Definition env_resume (t : tid) (f : option fid) : env := mkenv (Some t) f false false [].
+Definition env_resume (t : tid) (f : option fid) : env := mkenv (Some t) f false false [] false.
 
-Definition touch (e : env) : env := mkenv (e_task e) (e_fut e) false (e_rel e) (e_enq e).
+Definition touch (e : env) : env := mkenv (e_task e) (e_fut e) false (e_rel e) (e_enq e) (e_canc e).
 
 Definition set_owner (k : st_core) (o : option tid) : st_core :=
   mkc (c_fast k) o (c_waiters k) (c_futs k) (c_nfut k).
@@ -116,7 +120,7 @@ Fixpoint poploop (run : env -> st_core -> result) (ws : list (tid * fid)) (e : e
   | [] => (e, k, ONext)
   | (x, f) :: r =>
       (* task, fut = self._waiters.popleft() *)
-      let '(e1, k1, o) := run (mkenv (Some x) (Some f) false (e_rel e) (e_enq e)) (set_waiters k r) in
+      let '(e1, k1, o) := run (mkenv (Some x) (Some f) false (e_rel e) (e_enq e) (e_canc e)) (set_waiters k r) in
       match o with
       | ONext | OContinue => if wl_eqb (c_waiters k1) r then poploop run r e1 k1 else (e1, k1, OStuck)
       | _ => (e1, k1, o)
@@ -136,7 +140,7 @@ Fixpoint exec (p : stmt) (t : tid) (e : env) (k : st_core) {struct p} : result :
       | Some false => exec b t e k
       | None => (e, k, OStuck)
       end
-  | SBindTask => (mkenv (Some t) (e_fut e) (e_fresh e) (e_rel e) (e_enq e), k, ONext)
+  | SBindTask => (mkenv (Some t) (e_fut e) (e_fresh e) (e_rel e) (e_enq e) (e_canc e), k, ONext)
   | SSetOwnerTask =>
       match e_task e with
       | Some x => (touch e, set_owner k (Some x), ONext)
@@ -145,12 +149,12 @@ Fixpoint exec (p : stmt) (t : tid) (e : env) (k : st_core) {struct p} : result :
   | SSetOwnerNone => (touch e, set_owner k None, ONext)
   | SNewFut =>
       let f := c_nfut k in
-      (mkenv (e_task e) (Some f) false (e_rel e) (e_enq e),
+      (mkenv (e_task e) (Some f) false (e_rel e) (e_enq e) (e_canc e),
        mkc (c_fast k) (c_owner k) (c_waiters k) (upd (c_futs k) f FPending) (S f), ONext)
   | SAppendItem =>
       match e_task e, e_fut e with
       | Some x, Some f =>
-          (mkenv (e_task e) (e_fut e) false (e_rel e) (e_enq e ++ [(x, f)]),
+          (mkenv (e_task e) (e_fut e) false (e_rel e) (e_enq e ++ [(x, f)]) (e_canc e),
            set_waiters k (c_waiters k ++ [(x, f)]), ONext)
       | _, _ => (e, k, OStuck)
       end
@@ -168,19 +172,22 @@ Fixpoint exec (p : stmt) (t : tid) (e : env) (k : st_core) {struct p} : result :
   | SContinue => (e, k, OContinue)
   | SCall body =>
       (* the callee has its own locals; its events are reported to the caller's log *)
-      let '(e1, k1, o) := exec body t (mkenv None None false (e_rel e) (e_enq e)) k in
+      let '(e1, k1, o) := exec body t (mkenv None None false (e_rel e) (e_enq e) (e_canc e)) k in
       match o with
-      | ONext | OReturn => (mkenv (e_task e) (e_fut e) false true (e_enq e1), k1, ONext)
-      | ORaise x => (mkenv (e_task e) (e_fut e) false (e_rel e1) (e_enq e1), k1, ORaise x)
+      | ONext | OReturn => (mkenv (e_task e) (e_fut e) false true (e_enq e1) (e_canc e), k1, ONext)
+      | ORaise x => (mkenv (e_task e) (e_fut e) false (e_rel e1) (e_enq e1) (e_canc e), k1, ORaise x)
       | _ => (e, k1, OStuck)
       end
   | SRaise x => (e, k, ORaise x)
   | SReturn => (e, k, OReturn)
   | SCkIf =>
-      (* checkpoint_if_cancelled() neither suspends nor raises when the caller is not in a cancelled scope (C08
-         covers the other case).  That reading is only sound at the very beginning of a call: before any effect and
-         before any suspension.  Anywhere else the marker is outside the model. *)
-      if e_fresh e then (e, k, ONext) else (e, k, OStuck)
+      (* checkpoint_if_cancelled().  Caller's scope not cancelled: neither suspends nor raises.  Caller's scope
+         effectively cancelled: the call does not get past this point - checkpoint_if_cancelled spins on sleep(0)
+         until the delivery arrives and the cancellation exception is raised out of the call
+         (C03_ckif_spin_terminates; C08_ckif_suspends_iff_effectively_cancelled); the model has no suspension point for
+         it, the segment ends with OCancelled.  Both readings are only sound at the very beginning of a call: before
+         any effect and before any suspension.  Anywhere else the marker is outside the model. *)
+      if e_fresh e then (if e_canc e then (e, k, OCancelled) else (e, k, ONext)) else (e, k, OStuck)
   | SSuspend a =>
       match a, e_fut e with
       | AwFut, None => (e, k, OStuck)
@@ -212,7 +219,7 @@ Definition res_of (o : outcome) : option res :=
   | OSuspend _ => Some RBlocked
   | ORaise ERuntime => Some RRuntime
   | ORaise EWouldBlock => Some RWouldBlock
-  | ORaise ECancelled => Some RCancelled
+  | ORaise ECancelled | OCancelled => Some RCancelled
   | OContinue | OStuck => None
   end.
 
